@@ -190,6 +190,17 @@ func Locksets(fn *ssa.Function, entry lockState) map[ssa.Instruction]lockState {
 							st[LockKey{Root: base.Root, Path: joinPath(base.Path, ak.path)}] = true
 						}
 					}
+					// … or with the lock of what it hands back held on every return that is not an error
+					// (`b, err := bm.locked(n)`): held on the result after the call
+					if resultLockedOnReturn(h) {
+						var res ssa.Value = c
+						if tup, isTup := c.Type().(*types.Tuple); isTup && tup.Len() > 1 {
+							res = extractOf(c, 0)
+						}
+						if res != nil {
+							st[LockKey{Root: res, Path: ""}] = true
+						}
+					}
 					break
 				}
 				// the unlock handed back by such a helper and called later: unlock := lockBlock(b, …); …; unlock()
@@ -577,4 +588,52 @@ func unlockClosureKey(mc *ssa.MakeClosure) (LockKey, bool) {
 		}
 	}
 	return LockKey{}, false
+}
+
+var resultLockMemo = map[*ssa.Function]int{}
+
+// resultLockedOnReturn: at every return of h that does not report a definite error, a lock rooted at the
+// value returned as result #0 is held (and was not released by a deferred unlock)
+func resultLockedOnReturn(h *ssa.Function) bool {
+	if v, ok := resultLockMemo[h]; ok {
+		return v == 1
+	}
+	resultLockMemo[h] = 0
+	locks := false
+	for _, ci := range callsIn(h) {
+		if _, op := lockOp(ci); op == "lock" {
+			locks = true
+		}
+		if d, isDefer := ci.(*ssa.Defer); isDefer {
+			if _, op := lockOp(d); op == "unlock" {
+				return false
+			}
+		}
+	}
+	if !locks || h.Signature.Results().Len() == 0 {
+		return false
+	}
+	ls := Locksets(h, nil)
+	n := 0
+	for _, r := range returnsOf(h) {
+		vals := returnValues(r)
+		if len(vals) == 0 {
+			return false
+		}
+		if last := vals[len(vals)-1]; len(vals) > 1 && isErrorType(last.Type()) && definitelyNonNilError(last, nil) {
+			continue
+		}
+		if isNilConst(vals[0]) {
+			continue
+		}
+		n++
+		root := accessPath(vals[0])
+		if !ls[r][LockKey{Root: root.Root, Path: root.Path}] {
+			return false
+		}
+	}
+	if n > 0 {
+		resultLockMemo[h] = 1
+	}
+	return n > 0
 }
